@@ -322,7 +322,7 @@ def xpath_family(cx, nsch=None, verbose=0):
     from checks import c08
     mask = c08.live_mask(cx)      # the XPath engine of the model mirrors exactly the deviations still listed as `known` (C08)
     for i in range(n):
-        s = vg.fam_xpath(rng, i, nwhen=(rng.randrange(0, 2) if XP_WHEN else 0))
+        s = vg.fam_xpath(rng, i, nwhen=(rng.choice([0, 1, 1]) if XP_WHEN else 0))
         s._origin = "xpath"
         s.xpmask = mask
         schemas.append(s)
